@@ -41,7 +41,7 @@ Definition c_v (c : expr * (lv * (bool * bool))) := fst (snd c).
 Definition c_se (c : expr * (lv * (bool * bool))) := fst (snd (snd c)).
 Definition c_mu (c : expr * (lv * (bool * bool))) := snd (snd (snd c)).
 Definition model_ok c :=
-  (uses_unmodelled_pow (c_e c) ||
+  (pow_gap (c_e c) ||
    (lv_eqb (evaluate (c_e c)) (c_v c) && Bool.eqb (has_side_effects false (c_e c)) (c_se c)))
   && Bool.eqb (can_return_multiple_values (c_e c)) (c_mu c).
 Definition value_ok c := claim_value_ok FUEL (c_e c) (c_v c).
